@@ -3,10 +3,46 @@
 import json
 ALL=["C%02d"%i for i in range(1,21)]
 T_ENUM="bounded exhaustive enumeration of inputs against an executable reference model (explicit-state, every model trace replayed on the implementation)"
+T_HIST="explicit-state breadth-first search over operation histories executed on the real objects (state = shortest history, successors by replay, dedup by deep snapshot of private state), reference model in lock-step"
+T_STATE="explicit-state exploration of reachable URL states (bounded input enumeration + BFS over histories on the real objects), invariant evaluated in every state"
+MODEL_NOTE="Trusted: the reference model (verif/model; validated against 781+238 vendored WPT vectors on every run that uses it) and Go's per-byte U+FFFD reading of invalid UTF-8; IDNA mapping delegated to the implementation's ToASCII as C01 prescribes. "
 checks={
  "C01": dict(level="model_checking", design="§5 C01", technique=T_ENUM,
    text="Every (input, base) pair of four declared finite spaces (prefix x Sigma^<=k over a 40-symbol class alphabet, Sigma^<=k x 40 bases, a slot-product grammar x 9 bases, edit-distance-1 ball round the 820 WPT inputs) is run through an independent executable transcription of the URL Standard and through the implementation and compared on failure-ness, Href and nine getters. Exhaustive within the bounds; nothing sampled.",
-   note="Trusted: the reference model (validated against 781+238 vendored WPT vectors on every run), Go's per-byte U+FFFD reading of invalid UTF-8, IDNA mapping delegated to the implementation's ToASCII as the property prescribes. Not covered: strings longer than the bounds outside the product/edit spaces; code points other than the class representatives."),
+   note=MODEL_NOTE+"Not covered: strings longer than the bounds outside the product/edit spaces; code points other than the class representatives."),
+ "C03": dict(level="model_checking", design="§5 C03", technique=T_STATE,
+   text="Parse(u.Href(false)) == u is evaluated in every state reached by the bounded input spaces of C01 and by the BFS over histories of setters, resolutions and clones (depth 2 full alphabet, deeper on a reduced menu) on the real objects. The only excuse is computed, not hard-coded: the lock-step model is in the same state and its own reparse differs.",
+   note=MODEL_NOTE+"The model is used only for the excuse clause. Not covered: histories deeper than the bound whose state was not already visited; values outside the menus."),
+ "C04": dict(level="model_checking", design="§5 C04", technique=T_STATE,
+   text="One predicate per clause of the statement (scheme grammar, host/path shape rules, credentials/port rules, canonical non-default port, printable ASCII, encode-set and forbidden-code-point freedom per component, Href = composition of getters, Host = Hostname[:Port], Href(true)) evaluated through public getters in every reachable state of the same exploration as C03.",
+   note="Trusted: the standard's encode-set predicates and special-scheme table as transcribed in verif/model. The empty-vs-null distinction hidden by the getters is handled by admitting both compositions."),
+ "C05": dict(level="model_checking", design="§5 C05", technique=T_HIST,
+   text="All setter histories of depth 3 (thorough 4) over a ~130-operation alphabet (value menus hitting every early return of the override paths) from 16 start URLs, plus every single setter call with every value of Sigma^<=k, executed on the real *Url with the model's setter algorithms in lock-step; Href and nine getters compared after every call.",
+   note=MODEL_NOTE+"Not covered: histories longer than the depth bound whose effect is not an already visited state; values outside menus and Sigma^<=k."),
+ "C07": dict(level="model_checking", design="§5 C07", technique=T_ENUM,
+   text="All host strings of Sigma4^<=6 (thorough 7) over the IPv4-relevant alphabet and all dot-joined products of a 31-item boundary menu, in http and (shorter ones) every special scheme and as opaque host, compared with the model's ends-in-a-number checker, IPv4 number parser (big integers), IPv4 parser and serializer through the full URL parse.",
+   note=MODEL_NOTE+"Not covered: hosts longer than the bound outside the parts product."),
+ "C08": dict(level="model_checking", design="§5 C08", technique=T_ENUM,
+   text="All bracket contents of Sigma6^<=6 (thorough 7), bracket arrangements, structured addresses (pieces x '::' positions x IPv4 tails) against the model's IPv6 parser, and all 6^8 addresses over piece values covering every zero pattern and digit-count class against the model serializer, including serialize-parse identity.",
+   note=MODEL_NOTE+"Not covered: piece values outside the six representatives (the serializer only distinguishes zero / hex digit count)."),
+ "C09": dict(level="exploration", design="§5 C09", technique="bounded exhaustive enumeration of hosts x all spellings (metamorphic: one outcome per variation class)",
+   text="For every host of the declared spaces (all ASCII pairs, Sigma^<=4 over a 21-symbol reduced alphabet with IDNA-relevant characters, ACE probes, localhost under file:) every spelling (case x literal/escaped per code point) is parsed and all must agree; result ASCII/lower-case/free of forbidden domain code points; plain-ASCII hosts equal the standard's host parser.",
+   note="Trusted: model host parser on the plain-ASCII path only. The IDNA mapping itself is out of scope by the property's own wording."),
+ "C10": dict(level="exploration", design="§5 C10", technique="exhaustive table comparison (all 0x110000 code points x 6 sets), exhaustive derivation chains, bounded exhaustive string enumeration for the codec laws",
+   text="Set membership is a finite table and is compared completely; Set/Clear derivations of every byte (and all two-step chains over printable ASCII) are checked for parent immutability; the codec laws are checked on every string of SigmaP^<=5 (thorough 6) x 12 sets against the standard's encoder/decoder.",
+   note="Trusted: the standard's set definitions as transcribed in verif/model. Clear() of a code point covered by a set's range rule is left unconstrained (the property does not say)."),
+ "C11": dict(level="model_checking", design="§5 C11", technique=T_HIST,
+   text="BFS over all histories (depth 3, thorough 4) of the five list mutators over a 6x6 name/value menu on a real SearchParams with the standard's list operations in lock-step, all observers compared in every state, serialize-parse round trip in every state; all queries of SigmaQ^<=5 (thorough 7) against the standard's form-urlencoded parser.",
+   note=MODEL_NOTE+"Known finding KF-serializer-delims (names/values containing % & + =) is matched narrowly and printed, not suppressed silently."),
+ "C12": dict(level="model_checking", design="§5 C12", technique=T_HIST,
+   text="BFS (depth 3, thorough 4) over mixed histories: list mutators through two handles, SetSearch, other setters, clone and resolve, on 7 start URLs (with/without query, opaque or not); after each step the URL's Query/Search/Href and every handle ever obtained must describe the same list.",
+   note="Trusted: the standard's urlencoded parser (verif/model). Weaker reading where the statement is silent: an emptied list may leave a null or an empty query."),
+ "C13": dict(level="model_checking", design="§5 C13", technique="explicit-state exploration of operation histories on pairs of real objects with frame and differential (twin) oracles",
+   text="For every pairing (resolve of 11 reference shapes, Clone) of 19 start URLs, handle obtained never/before/after, every history of depth 2 (thorough 3) over ~45 operations applied to either side: untouched side's observables and parameter list unchanged; operated side equals the same history on an independent fresh parse.",
+   note="Observables only, as the statement says. No model involved (differential oracle)."),
+ "C19": dict(level="model_checking", design="§5 C19", technique=T_STATE,
+   text="IsIPv4/IsIPv6/DecodedPort/Scheme/Query/Fragment/OpaquePath/IsSpecialScheme are checked against the primary getters and the Href shape in every state of the same exploration as C03/C04, plus the confluence oracle (same Href reached by parsing shows the same accessors).",
+   note="Trusted: the standard's special-scheme/default-port table."),
 }
 pending={i:"check not built yet in this round (work in progress; see DESIGN.md §5 for the planned decision procedure)" for i in ALL if i not in checks}
 m={"version":1,
